@@ -153,7 +153,9 @@ def run_script(script, period=0.125, env_table=None, crash_rec=None, real=False,
 
     def sim_open(name, mode="r", *a, **k):
         if str(name).endswith("verif_plan.flo"):
-            return io.StringIO(script)
+            f = io.StringIO(script)
+            f.name = str(name)
+            return f
         return open(name, mode, *a, **k)
 
     res = Result()
